@@ -5,7 +5,11 @@
 package main
 
 import (
+	"bytes"
+	"compress/zlib"
 	"encoding/base64"
+	"encoding/binary"
+	"io"
 	"encoding/hex"
 	"fmt"
 	"math/big"
@@ -147,6 +151,8 @@ var fnNames = map[int]string{1: "CHAR_LENGTH", 2: "LENGTH", 3: "CONCAT", 4: "SUB
 	18: "TO_BASE64", 19: "FROM_BASE64", 20: "CONV", 21: "INET_ATON", 22: "INET_NTOA", 23: "ROUND", 24: "ROUND", 25: "TRUNCATE",
 	26: "CEIL", 27: "FLOOR"}
 
+var compressSeq int
+
 type runner struct {
 	s  *eng.S
 	cs *caseT
@@ -229,6 +235,21 @@ func randStr(r *lib.RNG, maxLen int, ascii bool) string {
 	return sb.String()
 }
 
+// exactBytes returns a string of exactly n bytes (mostly ASCII, some multi-byte characters).
+func exactBytes(r *lib.RNG, n int) string {
+	var sb strings.Builder
+	for sb.Len() < n {
+		ch := lib.Pick(r, asciiAlpha)
+		if r.Chance(1, 8) {
+			ch = lib.Pick(r, alphabet)
+		}
+		if sb.Len()+len(ch) <= n {
+			sb.WriteString(ch)
+		}
+	}
+	return sb.String()
+}
+
 func strArg(r *lib.RNG, maxLen int) Arg {
 	if r.Chance(1, 25) {
 		return NUL()
@@ -285,8 +306,8 @@ func numArg(r *lib.RNG) Arg {
 }
 
 func gen(r *lib.RNG) caseT {
-	fams := []string{"concat", "reverse", "leftright", "substr", "locate", "insert", "pad", "repeat", "hex", "unhex", "b64", "b64dec",
-		"conv", "convraw", "inet_n", "inet_s", "round", "trunc", "ceilfloor"}
+	fams := []string{"concat", "reverse", "leftright", "substr", "locate", "insert", "pad", "repeat", "hex", "unhex", "b64", "b64", "b64dec",
+		"conv", "convraw", "inet_n", "inet_s", "round", "trunc", "ceilfloor", "compress"}
 	f := lib.Pick(r, fams)
 	switch f {
 	case "concat":
@@ -337,11 +358,34 @@ func gen(r *lib.RNG) caseT {
 		}
 		return caseT{Fam: f, In: []Arg{S(sb.String())}}
 	case "b64":
-		maxLen := 8
-		if r.Chance(1, 3) {
-			maxLen = 70
+		// byte lengths up to ~400, every residue mod 57 (57 bytes = one 76-character line); the lengths whose
+		// encoding is an exact multiple of 76 characters (55..57, 112..114, 169..171, ...) are over-represented
+		switch r.Intn(4) {
+		case 0:
+			return caseT{Fam: f, In: []Arg{strArg(r, 8)}}
+		case 1:
+			return caseT{Fam: f, In: []Arg{strArg(r, 70)}}
+		case 2:
+			n := 57*r.Range(1, 7) - r.Intn(4) + r.Intn(2)
+			return caseT{Fam: f, In: []Arg{S(exactBytes(r, n))}}
 		}
-		return caseT{Fam: f, In: []Arg{strArg(r, maxLen)}}
+		return caseT{Fam: f, In: []Arg{S(exactBytes(r, r.Range(0, 400)))}}
+	case "compress":
+		n := r.Range(2, 5)
+		in := make([]Arg, n)
+		for i := range in {
+			switch r.Intn(5) {
+			case 0:
+				in[i] = S("")
+			case 1:
+				in[i] = S(strings.Repeat(randStr(r, 3, false)+"x", r.Range(1, 200)))
+			case 2:
+				in[i] = NUL()
+			default:
+				in[i] = S(randStr(r, 12, false))
+			}
+		}
+		return caseT{Fam: f, In: in}
 	case "b64dec":
 		// a valid encoding, damaged by a few edits
 		b := []byte(base64.StdEncoding.EncodeToString([]byte(randStr(r, 7, false))))
@@ -995,6 +1039,79 @@ func run(c *lib.Ctx, e *eng.E, cs caseT) {
 		if fl.K != "int" || fl.rat().Cmp(xv) > 0 || new(big.Rat).Sub(xv, fl.rat()).Cmp(one) >= 0 {
 			fail("floor/"+beyond("negative-fraction-above-minus-one-tenth-gives-zero"), fmt.Sprintf("FLOOR(%s) = %s", x.lit(), fl.I))
 		}
+	case "compress":
+		// inverse law on the implementation alone (zlib itself is an oracle): one-shot, framing, and values that are
+		// STORED by several COMPRESS calls (one multi-row INSERT, then one INSERT per row) and read back afterwards
+		compressSeq++
+		tbl := fmt.Sprintf("c34_compress_%d", compressSeq)
+		q := func(sql string) eng.Result { return r.s.Query(sql) }
+		bad := func(sig, what string) { fail("compress/"+sig, what) }
+		for _, a := range in {
+			res := q("SELECT UNCOMPRESS(COMPRESS(" + a.lit() + ")), COMPRESS(" + a.lit() + "), UNCOMPRESSED_LENGTH(COMPRESS(" + a.lit() + "))")
+			if res.Err != nil || len(res.Rows) != 1 {
+				bad("one-shot-failed", fmt.Sprintf("UNCOMPRESS(COMPRESS(%s)): %v", a.lit(), res.Err))
+				continue
+			}
+			row := res.Rows[0]
+			if a.null() {
+				if row[0] != nil || row[1] != nil {
+					bad("null-not-propagated", "COMPRESS(NULL) / UNCOMPRESS(NULL) is not NULL")
+				}
+				continue
+			}
+			back, _ := row[0].([]byte)
+			if string(back) != a.S {
+				bad("one-shot-not-inverse", fmt.Sprintf("UNCOMPRESS(COMPRESS(%q)) = %q", a.S, back))
+			}
+			comp, _ := row[1].([]byte)
+			if len(a.S) == 0 {
+				if len(comp) != 0 {
+					bad("empty-not-empty", fmt.Sprintf("COMPRESS('') = %x", comp))
+				}
+			} else if len(comp) < 5 || binary.LittleEndian.Uint32(comp[:4]) != uint32(len(a.S)) {
+				bad("length-prefix-wrong", fmt.Sprintf("COMPRESS(%q) = %x: the first four bytes are not the little-endian length %d", a.S, comp, len(a.S)))
+			} else if zr, err := zlib.NewReader(bytes.NewReader(comp[4:])); err != nil {
+				bad("body-not-zlib", fmt.Sprintf("COMPRESS(%q) body: %v", a.S, err))
+			} else if plain, err := io.ReadAll(zr); err != nil || string(plain) != a.S {
+				bad("body-not-zlib", fmt.Sprintf("COMPRESS(%q) body inflates to %q (%v)", a.S, plain, err))
+			}
+		}
+		if res := q("CREATE TABLE " + tbl + " (id INT PRIMARY KEY, c LONGBLOB)"); res.Err != nil {
+			bad("setup", res.Err.Error())
+			break
+		}
+		var vals []string
+		for i, a := range in {
+			vals = append(vals, fmt.Sprintf("(%d, COMPRESS(%s))", i, a.lit()))
+		}
+		if res := q("INSERT INTO " + tbl + " VALUES " + strings.Join(vals, ", ")); res.Err != nil {
+			bad("stored-insert-failed", res.Err.Error())
+		}
+		for i, a := range in {
+			if res := q(fmt.Sprintf("INSERT INTO %s VALUES (%d, COMPRESS(%s))", tbl, 100+i, a.lit())); res.Err != nil {
+				bad("stored-insert-failed", res.Err.Error())
+			}
+		}
+		res := q("SELECT id, UNCOMPRESS(c), c FROM " + tbl + " ORDER BY id")
+		if res.Err != nil || len(res.Rows) != 2*len(in) {
+			bad("stored-read-failed", fmt.Sprintf("%d rows, %v", len(res.Rows), res.Err))
+		} else {
+			for k, row := range res.Rows {
+				a := in[k%len(in)]
+				back, ok := row[1].([]byte)
+				switch {
+				case a.null() && row[1] != nil:
+					bad("null-not-propagated", "stored COMPRESS(NULL) is not NULL")
+				case !a.null() && (!ok || string(back) != a.S):
+					shape := "multi-row-insert"
+					if k >= len(in) {
+						shape = "insert-per-row"
+					}
+					bad("stored-value-not-inverse", fmt.Sprintf("row %v (%s) of %d stored COMPRESS values: UNCOMPRESS(c) = %q, stored from %q", row[0], shape, 2*len(in), back, a.S))
+				}
+			}
+		}
+		q("DROP TABLE " + tbl)
 	default:
 		panic("unknown family " + cs.Fam)
 	}
@@ -1030,7 +1147,7 @@ func main() {
 		c.Header = "From Coq Require Import List NArith ZArith.\nImport ListNotations.\nFrom GMS Require Import Corr.C34.\nOpen Scope N_scope."
 		c.CaseType = "C34.case"
 		c.MismatchFn = "C34.mismatches"
-		c.SetRule("one identity instance per case, drawn from 19 families (concat/char_length, reverse, left/right/substring, " +
+		c.SetRule("one identity instance per case, drawn from 20 families (COMPRESS/UNCOMPRESS one-shot and stored-then-read-back, base64 over byte lengths 0..400, concat/char_length, reverse, left/right/substring, " +
 			"substring positions, locate/instr, insert, lpad/rpad, repeat, hex, unhex, base64 both ways, conv both ways, inet both ways, " +
 			"round, truncate, ceil/floor); strings over an alphabet with 1-4 byte characters, 1/25 NULLs, positions in -9..10 plus " +
 			"int64/int32 boundaries, numbers small, boundary, and decimals up to 24 digits. Non-trivial = no NULL argument and inside " +
@@ -1062,6 +1179,11 @@ func main() {
 			{Fam: "reverse", In: []Arg{S("héllo𝄞")}},
 			{Fam: "hex", In: []Arg{S("héllo")}},
 			{Fam: "b64", In: []Arg{S(strings.Repeat("abcdefghij", 12))}},
+			{Fam: "b64", In: []Arg{S(strings.Repeat("a", 57))}},
+			{Fam: "b64", In: []Arg{S(strings.Repeat("ab", 57))}},
+			{Fam: "b64", In: []Arg{S(strings.Repeat("abc", 57))}},
+			{Fam: "b64", In: []Arg{S(strings.Repeat("abc", 57) + "d")}},
+			{Fam: "compress", In: []Arg{S("aaaa"), S("bbbbbbbb"), S("héllo"), S(""), NUL()}},
 			{Fam: "conv", In: []Arg{S("18446744073709551615"), I(10), I(16)}},
 			{Fam: "round", In: []Arg{I(15), I(-1)}},
 			{Fam: "round", In: []Arg{D(big.NewInt(-125), 2), I(1)}},
